@@ -20,11 +20,10 @@ type gen struct {
 	nodes   []shell.VerifC16Node
 	colls   []string
 	doRacks bool
+	gated   bool // entry through VerifC16Do: the totalFreeEcSlots gate of commandEcBalance.Do, then the body
 	topo    bool // go through collectEcVolumeServersByDc (free slots computed from max/active counts)
 	kind    string
 }
-
-var nodeIdx = map[string]int{}
 
 func nid(s string) uint64 { // "n<k>" -> k
 	var k int
@@ -45,10 +44,33 @@ func popcount(b uint32) int {
 	return c
 }
 
-func genLayout(r *hx.Rng) gen {
-	var g gen
+// rack counts: every spread limit ceil(14/#racks) in {14,7,5,4,3,2,1} is reached, and the
+// "enough racks" regime (7, 14, 15, 16 racks) is generated
+func pickRackCount(r *hx.Rng) int {
+	return r.PickInt([]int{1, 1, 2, 2, 2, 2, 3, 3, 3, 4, 4, 4, 5, 5, 6, 7, 7, 8, 10, 14, 14, 15, 15, 16})
+}
+
+// racksOver = number of distinct rack names whose shard count (popcount, as the planner counts)
+// of volume vid exceeds ceil(14/#racks)
+func racksOver(nodes []shell.VerifC16Node, bits []map[uint32]uint32, vid uint32) int {
+	cnt := map[string]int{}
+	for i, n := range nodes {
+		cnt[n.Rack] += 0
+		cnt[n.Rack] += popcount(bits[i][vid])
+	}
+	avg := (14 + len(cnt) - 1) / len(cnt)
+	over := 0
+	for _, c := range cnt {
+		if c > avg {
+			over++
+		}
+	}
+	return over
+}
+
+func genNodes(r *hx.Rng, nrack, perMin, perMax int) []shell.VerifC16Node {
+	var nodes []shell.VerifC16Node
 	ndc := r.Range(1, 2)
-	nrack := r.Range(1, 4)
 	shareNames := ndc == 2 && r.Chance(1, 3) // same rack names in both DCs: the planner merges them
 	id := 0
 	rackNo := 0
@@ -66,23 +88,49 @@ func genLayout(r *hx.Rng) gen {
 				name = k
 			}
 			rackNo++
-			for n := r.Range(1, 3); n > 0; n-- {
+			for n := r.Range(perMin, perMax); n > 0; n-- {
 				free := r.Range(0, 20)
 				if r.Chance(1, 4) {
 					free = r.Range(0, 2)
 				}
-				g.nodes = append(g.nodes, shell.VerifC16Node{
+				nodes = append(nodes, shell.VerifC16Node{
 					Id: fmt.Sprintf("n%d", id), Dc: fmt.Sprintf("dc%d", d), Rack: fmt.Sprintf("r%d", name),
 					Free: free, HasHdd: true})
 				id++
 			}
 		}
 	}
+	return nodes
+}
+
+// a few bits of 14..31 (not shard ids: ShardIds() stops at TotalShardsCount, ShardIdCount() counts them)
+func highBits(r *hx.Rng) uint32 {
+	var b uint32
+	for k := r.Range(1, 3); k > 0; k-- {
+		b |= 1 << uint(r.Range(14, 31))
+	}
+	return b
+}
+
+func genLayout(r *hx.Rng) gen {
+	var g gen
+	nrack := pickRackCount(r)
+	perMax := 3
+	if nrack >= 7 {
+		perMax = 2
+		if nrack >= 14 && r.Chance(2, 3) {
+			perMax = 1
+		}
+	}
+	g.nodes = genNodes(r, nrack, 1, perMax)
 	ncoll := r.Range(1, 2)
 	for c := 1; c <= ncoll; c++ {
 		g.colls = append(g.colls, fmt.Sprintf("c%d", c))
 	}
 	nvol := r.Range(1, 3)
+	if nrack >= 10 {
+		nvol = r.Range(1, 2)
+	}
 	nn := len(g.nodes)
 	bits := make([]map[uint32]uint32, nn)
 	for i := range bits {
@@ -90,53 +138,74 @@ func genLayout(r *hx.Rng) gen {
 	}
 	var kinds []string
 	allowDup := r.Chance(1, 3) // duplicated shards only in a third of the layouts
+	high := r.Chance(1, 6)     // bits 14..31 set in some EcIndexBits
 	for v := 1; v <= nvol; v++ {
 		vid := uint32(v)
 		k := r.Intn(6)
 		if !allowDup && (k == 2 || k == 5) {
 			k = r.PickInt([]int{0, 1, 3, 4})
 		}
-		switch k {
-		case 0: // complete, spread evenly over the nodes
-			start := r.Intn(nn)
-			for s := 0; s < 14; s++ {
-				bits[(start+s)%nn][vid] |= 1 << uint(s)
+		for attempt := 0; ; attempt++ {
+			for i := range bits {
+				delete(bits[i], vid)
 			}
-			kinds = append(kinds, "even")
-		case 1: // all on one node
-			bits[r.Intn(nn)][vid] = all14
-			kinds = append(kinds, "one")
-		case 2: // complete on one node, some shards duplicated on another
-			a := r.Intn(nn)
-			bits[a][vid] = all14
-			if nn > 1 {
-				b := (a + 1 + r.Intn(nn-1)) % nn
-				bits[b][vid] |= uint32(r.Next()) & all14
-			}
-			kinds = append(kinds, "dup")
-		case 3: // missing shards, random scatter
-			for s := 0; s < 14; s++ {
-				if r.Chance(3, 4) {
+			switch k {
+			case 0: // complete, spread evenly over the nodes
+				start := r.Intn(nn)
+				for s := 0; s < 14; s++ {
+					bits[(start+s)%nn][vid] |= 1 << uint(s)
+				}
+			case 1: // all on one node
+				bits[r.Intn(nn)][vid] = all14
+			case 2: // complete on one node, some shards duplicated on another
+				a := r.Intn(nn)
+				bits[a][vid] = all14
+				if nn > 1 {
+					b := (a + 1 + r.Intn(nn-1)) % nn
+					bits[b][vid] |= uint32(r.Next()) & all14
+				}
+			case 3: // missing shards, random scatter
+				for s := 0; s < 14; s++ {
+					if r.Chance(3, 4) {
+						bits[r.Intn(nn)][vid] |= 1 << uint(s)
+					}
+				}
+			case 4: // random scatter over two or three nodes, complete
+				m := r.Range(2, 3)
+				base := r.Intn(nn)
+				for s := 0; s < 14; s++ {
+					bits[(base+r.Intn(m))%nn][vid] |= 1 << uint(s)
+				}
+			default: // scatter with a few duplicates
+				for s := 0; s < 14; s++ {
 					bits[r.Intn(nn)][vid] |= 1 << uint(s)
+					if r.Chance(1, 7) {
+						bits[r.Intn(nn)][vid] |= 1 << uint(s)
+					}
 				}
 			}
-			kinds = append(kinds, "missing")
-		case 4: // random scatter over two or three nodes, complete
-			m := r.Range(2, 3)
-			base := r.Intn(nn)
-			for s := 0; s < 14; s++ {
-				bits[(base+r.Intn(m))%nn][vid] |= 1 << uint(s)
+			// the oracle reconstruction enumerates the hidden iteration order of the overflowing racks
+			// only when two racks can pick the same shard id (duplicates): keep that enumeration small
+			if (k != 2 && k != 5) || racksOver(g.nodes, bits, vid) <= 4 {
+				break
 			}
-			kinds = append(kinds, "few")
-		default: // scatter with a few duplicates
-			for s := 0; s < 14; s++ {
-				bits[r.Intn(nn)][vid] |= 1 << uint(s)
-				if r.Chance(1, 7) {
-					bits[r.Intn(nn)][vid] |= 1 << uint(s)
-				}
+			if attempt >= 8 {
+				k = 2
 			}
-			kinds = append(kinds, "scatterdup")
 		}
+		kinds = append(kinds, []string{"even", "one", "dup", "missing", "few", "scatterdup"}[k])
+		if high {
+			for i := range bits {
+				if b, ok := bits[i][vid]; ok && r.Chance(1, 3) {
+					bits[i][vid] = b | highBits(r)
+				} else if !ok && r.Chance(1, 12) {
+					bits[i][vid] = highBits(r) // an entry with no shard id at all but a non-zero bitmap
+				}
+			}
+		}
+	}
+	if high {
+		kinds = append(kinds, "highbits")
 	}
 	for i := range g.nodes {
 		for v := 1; v <= nvol; v++ {
@@ -153,6 +222,27 @@ func genLayout(r *hx.Rng) gen {
 			g.nodes[i].HasHdd = false // server without an hdd disk entry
 		}
 	}
+	if r.Chance(1, 25) { // not well formed: a second EcShardInfos entry for the same volume on one server
+		var cand []int
+		for i := range g.nodes {
+			if len(g.nodes[i].Shards) > 0 {
+				cand = append(cand, i)
+			}
+		}
+		if len(cand) > 0 {
+			i := cand[r.Intn(len(cand))]
+			s := g.nodes[i].Shards[r.Intn(len(g.nodes[i].Shards))]
+			s.Bits = uint32(r.Next()) & all14
+			g.nodes[i].Shards = append(g.nodes[i].Shards, s)
+			kinds = append(kinds, "multi-entry")
+		}
+	}
+	if r.Chance(1, 30) { // starved cluster: commandEcBalance.Do refuses (totalFreeEcSlots < 1)
+		for i := range g.nodes {
+			g.nodes[i].Free = r.Range(-2, 0)
+		}
+		kinds = append(kinds, "starved")
+	}
 	switch r.Intn(8) {
 	case 0:
 		g.doRacks = false
@@ -163,9 +253,105 @@ func genLayout(r *hx.Rng) gen {
 	default:
 		g.doRacks = true
 	}
+	g.gated = g.doRacks && !r.Chance(1, 6)
 	g.topo = r.Chance(1, 5)
 	sort.Strings(kinds)
 	g.kind = strings.Join(kinds, "+")
+	return g
+}
+
+// rack-balance stress: few racks, 2-5 servers each, 4-8 volumes whose shards are dealt to
+// servers with very uneven weights (no shard twice), entries without shards, full servers
+func genRackLayout(r *hx.Rng) gen {
+	var g gen
+	nrack := r.Range(1, 3)
+	g.nodes = genNodes(r, nrack, 2, 5)
+	nn := len(g.nodes)
+	for i := range g.nodes {
+		switch r.Intn(5) {
+		case 0:
+			g.nodes[i].Free = r.Range(-1, 1)
+		case 1:
+			g.nodes[i].Free = r.Range(1, 4)
+		default:
+			g.nodes[i].Free = r.Range(3, 40)
+		}
+	}
+	weight := make([]int, nn)
+	tot := 0
+	for i := range weight {
+		weight[i] = r.PickInt([]int{0, 1, 1, 2, 4, 8, 16})
+		tot += weight[i]
+	}
+	if tot == 0 {
+		weight[0], tot = 1, 1
+	}
+	pick := func() int {
+		x := r.Intn(tot)
+		for i, w := range weight {
+			if x < w {
+				return i
+			}
+			x -= w
+		}
+		return 0
+	}
+	g.colls = []string{"c1"}
+	nvol := r.Range(4, 8)
+	for v := 1; v <= nvol; v++ {
+		bits := make([]uint32, nn)
+		has := make([]bool, nn)
+		p := r.PickInt([]int{4, 8, 12, 14, 14})
+		for s := 0; s < 14; s++ {
+			if r.Intn(14) < p {
+				i := pick()
+				bits[i] |= 1 << uint(s)
+				has[i] = true
+			}
+		}
+		for i := range g.nodes {
+			if !has[i] && r.Chance(1, 8) {
+				has[i] = true // an entry without shards: still makes the volume "known" to that server
+			}
+			if has[i] {
+				g.nodes[i].Shards = append(g.nodes[i].Shards, shell.VerifC16Shard{Vid: uint32(v), Collection: "c1", Bits: bits[i]})
+			}
+		}
+	}
+	for i := range g.nodes {
+		if r.Chance(1, 2) { // EcShardInfos in any order
+			sh := g.nodes[i].Shards
+			for k := len(sh) - 1; k > 0; k-- {
+				j := r.Intn(k + 1)
+				sh[k], sh[j] = sh[j], sh[k]
+			}
+		}
+		if len(g.nodes[i].Shards) == 0 && r.Chance(1, 4) {
+			g.nodes[i].HasHdd = false
+		}
+	}
+	if r.Chance(2, 3) { // free slots as a real server reports them: capacity minus what it holds
+		load := make([]int, nn)
+		maxLoad := 0
+		for i, n := range g.nodes {
+			for _, s := range n.Shards {
+				load[i] += popcount(s.Bits)
+			}
+			if load[i] > maxLoad {
+				maxLoad = load[i]
+			}
+		}
+		capacity := maxLoad + r.Range(-1, 6)
+		for i := range g.nodes {
+			g.nodes[i].Free = capacity - load[i] + r.Range(0, 1)
+		}
+	}
+	g.doRacks = true
+	if r.Chance(2, 3) {
+		g.colls = nil // balanceEcRacks only
+	}
+	g.gated = r.Chance(1, 2)
+	g.kind = "rackstress"
 	return g
 }
 
@@ -257,18 +443,27 @@ func canon(ns []shell.VerifC16Node, colls []string, doRacks bool) string {
 
 func runCase(out *hx.Out, r *hx.Rng, g gen) {
 	var c *shell.VerifC16Cluster
+	var totalFree int // totalFreeEcSlots of collectEcNodes
 	if g.topo {
-		c, _ = shell.VerifC16FromTopology(toTopology(r, g.nodes), "")
+		c, totalFree = shell.VerifC16FromTopology(toTopology(r, g.nodes), "")
 		out.Count("build:topology", 1)
 	} else {
 		c = shell.VerifC16New(g.nodes)
 		c.VerifC16SortNodes() // collectEcNodes sorts by free slots before planning
+		totalFree = c.VerifC16TotalFree()
 		out.Count("build:direct", 1)
 	}
 	before := c.VerifC16Nodes()
 	var events []shell.VerifC16Event
 	var errText, panicText string
+	refused := false
 	switch {
+	case g.gated:
+		events, refused, errText, panicText = c.VerifC16Do(totalFree, g.colls)
+		out.Count("entry:Do(gate+EcBalance)", 1)
+		if refused {
+			out.Count("gate:refused", 1)
+		}
 	case g.doRacks:
 		events, errText, panicText = c.VerifC16EcBalance(g.colls)
 		out.Count("entry:EcBalance", 1)
@@ -321,13 +516,56 @@ func runCase(out *hx.Out, r *hx.Rng, g gen) {
 		out.Count("layout:has-duplicates", 1)
 	}
 	out.Count(fmt.Sprintf("nodes:%02d", len(before)), 1)
-	term := fmt.Sprintf("{| c_nodes := %s; c_colls := %s; c_do_racks := %s; c_events := %s; c_final := %s; c_rfinal := %s |}",
-		coqNodes(before), hx.List(colls), hx.Bool(g.doRacks), hx.List(evs), coqNodes(after), hx.List(rfs))
-	out.Add(term, canon(before, g.colls, g.doRacks), moves > 0, g.kind)
+	out.Count(fmt.Sprintf("racks:%02d", len(rf)), 1)
+	high, multi := false, false
+	for _, n := range before {
+		seenVid := map[uint32]bool{}
+		for _, s := range n.Shards {
+			if s.Bits>>14 != 0 {
+				high = true
+			}
+			if seenVid[s.Vid] {
+				multi = true
+			}
+			seenVid[s.Vid] = true
+		}
+	}
+	if high {
+		out.Count("layout:bits-14..31-set", 1)
+	}
+	if multi {
+		out.Count("layout:two-entries-one-volume", 1)
+	}
+	rackMoves := 0
+	for _, e := range events {
+		if e.Kind == "rackmove" {
+			rackMoves++
+		}
+	}
+	if rackMoves > 0 {
+		out.Count("cases-with-rackmove", 1)
+	}
+	term := fmt.Sprintf("{| c_nodes := %s; c_colls := %s; c_do_racks := %s; c_gated := %s; c_refused := %s; c_events := %s; c_final := %s; c_rfinal := %s |}",
+		coqNodes(before), hx.List(colls), hx.Bool(g.doRacks), hx.Bool(g.gated), hx.Bool(refused), hx.List(evs), coqNodes(after), hx.List(rfs))
+	out.Add(term, canon(before, g.colls, g.doRacks)+fmt.Sprintf("|%v", g.gated), moves > 0, g.kind)
+}
+
+func manyRacks(n int) []shell.VerifC16Node {
+	var ns []shell.VerifC16Node
+	for i := 0; i < n; i++ {
+		x := shell.VerifC16Node{Id: fmt.Sprintf("n%d", i), Dc: "dc0", Rack: fmt.Sprintf("r%d", i), Free: 10 - i%3, HasHdd: true}
+		if i == 0 {
+			x.Shards = []shell.VerifC16Shard{{Vid: 1, Collection: "c1", Bits: all14}}
+		}
+		ns = append(ns, x)
+	}
+	return ns
 }
 
 func witnesses() []gen {
-	sh := func(v uint32, b uint32) shell.VerifC16Shard { return shell.VerifC16Shard{Vid: v, Collection: "c1", Bits: b} }
+	sh := func(v uint32, b uint32) shell.VerifC16Shard {
+		return shell.VerifC16Shard{Vid: v, Collection: "c1", Bits: b}
+	}
 	return []gen{
 		// finding 0: rack r1 has no free slot, the 7 picked shards vanish from the books
 		{nodes: []shell.VerifC16Node{
@@ -352,12 +590,24 @@ func witnesses() []gen {
 			{Id: "n1", Dc: "dc0", Rack: "r1", Free: 10, HasHdd: true},
 			{Id: "n2", Dc: "dc0", Rack: "r1", Free: 1, HasHdd: true}},
 			colls: []string{"c1"}, doRacks: true, kind: "example-clean"},
+		// balanceEcRacks example (props/C16.v c16_example_rack): one rack, a loaded and an empty server; two rack moves
+		{nodes: []shell.VerifC16Node{
+			{Id: "n0", Dc: "dc0", Rack: "r0", Free: 2, HasHdd: true, Shards: []shell.VerifC16Shard{sh(1, 0xf), sh(2, 0x3)}},
+			{Id: "n1", Dc: "dc0", Rack: "r0", Free: 10, HasHdd: true}},
+			colls: nil, doRacks: true, gated: true, kind: "example-rack"},
+		// the gate of commandEcBalance.Do: no free EC slot in the whole cluster, nothing is planned
+		{nodes: []shell.VerifC16Node{
+			{Id: "n0", Dc: "dc0", Rack: "r0", Free: 0, HasHdd: true, Shards: []shell.VerifC16Shard{sh(1, all14)}},
+			{Id: "n1", Dc: "dc0", Rack: "r1", Free: 0, HasHdd: true}},
+			colls: []string{"c1"}, doRacks: true, gated: true, kind: "gate-refused"},
+		// 15 racks (spread limit 1): 14 shards on one server, 13 of them cross to 13 other racks
+		{nodes: manyRacks(15), colls: []string{"c1"}, doRacks: true, gated: true, kind: "example-15-racks"},
 	}
 }
 
 func main() {
 	out := hx.Flags("C16", 300)
-	out.Rule = "cases 0-1: fixed witnesses of findings 0 and 1; case 2: the witness of the repaired rack-balance defect (regression case, empty plan); case 3: a fixed clean layout. Then random EC layouts: 1-2 DCs (1/3 of the 2-DC layouts reuse rack names), 1-4 racks, 1-3 nodes per rack, free slots 0-20 (1/4 of the nodes 0-2), 1-3 EC volumes in 1-2 collections, per volume one of: 14 shards round-robin / all on one node / complete + duplicates on a second node / missing shards scattered / complete on 2-3 nodes / scatter with duplicates (the two duplicate kinds only in 1/3 of the layouts); empty servers lose their hdd disk entry with 1/4; 1/5 of the cases are built through collectEcVolumeServersByDc from a TopologyInfo (free slots computed). Entry: EcBalance (balanceEcVolumes per collection, then balanceEcRacks) 7/8 (1/8 with no collection), balanceEcVolumes alone 1/8; always dry run. non-trivial = the plan contains at least one move; distinct = canonical books + collections + entry"
+	out.Rule = "cases 0-1: fixed witnesses of findings 0 and 1; case 2: the witness of the repaired rack-balance defect (regression case, empty plan); case 3: a fixed clean layout (Example c16_example); case 4: the balanceEcRacks example (c16_example_rack, two rack moves); case 5: a cluster without any free slot, refused by the gate of commandEcBalance.Do; case 6: 15 racks, 14 shards on one server. Then random EC layouts, 4/5 general: 1-2 DCs (1/3 of the 2-DC layouts reuse rack names), 1-16 racks (1,2,3,4,5,6,7,8,10,14,15,16), 1-3 nodes per rack (1-2 from 7 racks on), free slots 0-20 (1/4 of the nodes 0-2), 1-3 EC volumes in 1-2 collections, per volume one of: 14 shards round-robin / all on one node / complete + duplicates on a second node / missing shards scattered / complete on 2-3 nodes / scatter with duplicates (the two duplicate kinds only in 1/3 of the layouts, and with at most 4 racks above the spread limit); 1/6 of the layouts set bits 14..31 in some bitmaps (also entries with only such bits); 1/25 carry a second EcShardInfos entry for one volume on one server (correspondence only); 1/30 are starved (all free slots -2..0); empty servers lose their hdd disk entry with 1/4. 1/5 rack-balance stress: 1-3 racks, 2-5 nodes each, 4-8 volumes dealt with very uneven weights (no shard twice), entries without shards, shuffled entry order, free slots = capacity - load (2/3) or random -1..40. 1/5 of the cases are built through collectEcVolumeServersByDc from a TopologyInfo (free slots computed). Entry: the gate of commandEcBalance.Do then balanceEcVolumes per collection then balanceEcRacks (most), the same without the gate, balanceEcRacks only, balanceEcVolumes alone (1/8); always dry run. non-trivial = the plan contains at least one move; distinct = canonical books + collections + entry"
 	root := hx.NewRng(out.Seed)
 	for i := 0; i < out.N; i++ {
 		r := root.Fork()
@@ -365,7 +615,11 @@ func main() {
 		if w := witnesses(); i < len(w) {
 			g = w[i]
 		} else {
-			g = genLayout(r)
+			if r.Chance(1, 5) {
+				g = genRackLayout(r)
+			} else {
+				g = genLayout(r)
+			}
 		}
 		runCase(out, r, g)
 	}
